@@ -8,7 +8,7 @@ from ..program import AnalysisError, Program, norm, walk_local, ancestors
 from ..report import Check
 from ..types import Types
 from ..util import calls_in, fkey, is_method_call, node_calls, path_of, recv_of, where
-from .mgr import MGR, CORE, Dispatch, const_resolver, self_call
+from .mgr import comprehension_facts, MGR, CORE, Dispatch, const_resolver, self_call
 
 CONTROL_TYPES = {"MT_CONNECT", "MT_CONNECT_V2", "MT_DISCONNECT", "MT_SUBSCRIBE", "MT_UNSUBSCRIBE", "MT_PAUSE_SUBSCRIPTION",
                  "MT_RESUME_SUBSCRIPTION", "MT_CLIENT_SET_NAME", "MT_MODULE_READY"}
@@ -104,12 +104,53 @@ def run(prog: Program, chk: Check):
         R1.decide(canon == {"TYPE", "ALL"}, fkey(fm, c), where(fm, c), f"recipient `{rv}` drawn from subscriptions[type] ++ subscriptions[ALL]",
                   f"recipient `{rv}` drawn from {sorted(canon)} (expected exactly subscriptions[{hdr_p}.msg_type] and subscriptions[ALL_MESSAGE_TYPES])")
 
+    # the collection may be re-ordered, copied or extended on the way to the loop, but narrowed only by the destination filter
+    # itself: whoever a narrowing leaves out must be ineligible for this message (or no longer connected)
+    rvars = sorted({t.id for a in walk_local(fm.node) if isinstance(a, ast.Assign) for t in a.targets if isinstance(t, ast.Name)
+                    and any(lf.startswith("self.subscriptions[") for lf in dataflow.source_closure(fm.node, ast.Name(id=t.id, ctx=ast.Load())))})
+    nnar = 0
+    for a in walk_local(fm.node):
+        what = None
+        if isinstance(a, ast.Assign) and any(isinstance(t, ast.Name) and t.id in rvars for t in a.targets):
+            v = a.value
+            while isinstance(v, ast.Call) and isinstance(v.func, ast.Name) and v.func.id in ("list", "tuple", "set", "sorted", "frozenset") and len(v.args) == 1:
+                v = v.args[0]
+            if isinstance(v, (ast.ListComp, ast.SetComp, ast.GeneratorExp)) and any(gen.ifs for gen in v.generators):
+                gen = v.generators[0]
+                if len(v.generators) != 1 or not isinstance(gen.target, ast.Name) or norm(v.elt) != gen.target.id:
+                    what = "comprehension too involved to decide whom it leaves out"
+                else:
+                    m = gen.target.id
+                    cond = gen.ifs[0] if len(gen.ifs) == 1 else ast.BoolOp(op=ast.And(), values=list(gen.ifs))
+                    node = next((x for x in g.nodes if x.ast is a), None)
+                    goal = guards.parse(f"not ({hdr_p}.dest_mod_id == 0 or {m}.mod_id == {hdr_p}.dest_mod_id or {m}.is_logger) or {m}.conn not in self.modules")
+                    paths = [[(guards.fold_consts(guards.subst(e, cm), res), pol) for e, pol in p] + [(guards.fold_consts(guards.subst(cond, cm), res), False)] for p in (gs.at(node) if node is not None else [[]])]
+                    bad = guards.any_path_implies(paths, goal)
+                    nnar += 1
+                    R1.decide(not bad, fkey(fm, a), where(fm, a), "the narrowing leaves out only subscribers the destination filter excludes anyway",
+                              f"`{norm(a)[:90]}` leaves out subscribers that the destination filter would accept: "
+                              + (", ".join(("" if pol else "not ") + norm(e) for e, pol in paths[bad[0]]) if bad else ""))
+                    continue
+            elif isinstance(v, ast.Subscript) and isinstance(v.slice, ast.Slice) and isinstance(v.value, ast.Name) and v.value.id in rvars:
+                what = "keeps a positional slice of the subscribers"
+            elif isinstance(v, ast.Call) and isinstance(v.func, ast.Name) and v.func.id in ("filter", "next"):
+                what = f"narrows the subscribers through {v.func.id}()"
+        elif isinstance(a, ast.Call) and isinstance(a.func, ast.Attribute) and a.func.attr in ("remove", "pop", "discard", "clear", "difference_update", "intersection_update") and isinstance(a.func.value, ast.Name) and a.func.value.id in rvars:
+            what = f"removes entries from the subscriber collection ({a.func.attr})"
+        elif isinstance(a, ast.Delete) and any(isinstance(t, ast.Subscript) and isinstance(t.value, ast.Name) and t.value.id in rvars for t in a.targets):
+            what = "deletes entries of the subscriber collection"
+        if what:
+            nnar += 1
+            R1.bad(fkey(fm, a), where(fm, a), f"`{norm(a)[:90]}` {what}: subscribers of the type can be left out of the delivery")
+    chk.units["recipient_collections"] = rvars
+    chk.units["recipient_narrowings"] = nnar
+
     # ---- R2 destination filter -----------------------------------------------------------------
     R2 = chk.rule("C01-R2", "every send is dominated by dest_mod_id == 0 or module.mod_id == dest_mod_id or module.is_logger", 2,
                   "otherwise an addressed message reaches modules other than the addressee and the loggers")
     for n, c, rv in sends:
         goal = guards.parse(f"{hdr_p}.dest_mod_id == 0 or {rv}.mod_id == {hdr_p}.dest_mod_id or {rv}.is_logger")
-        paths = [[(guards.fold_consts(guards.subst(e, cm), res), pol) for e, pol in p] for p in gs.at(n)]
+        paths = [[(guards.fold_consts(guards.subst(e, cm), res), pol) for e, pol in list(p) + comprehension_facts(fm.node, rv)] for p in gs.at(n)]
         bad = guards.any_path_implies(paths, goal)
         R2.decide(not bad, fkey(fm, c), where(fm, c), "destination filter dominates the send",
                   f"a path reaches `{norm(c)}` without the destination filter: guards on that path = "
